@@ -366,6 +366,11 @@ fn id_kernel<const N: usize>(with_mask_check: bool) {
     let dz: u64 = dr.u64();
     let has_dy: bool = dr.bool();
     let has_dz: bool = dr.bool();
+    // excluded-domain lists (0..=1 hash)
+    let ny: u64 = dr.u64();
+    let nz: u64 = dr.u64();
+    let has_ny: bool = dr.bool();
+    let has_nz: bool = dr.bool();
     let bad = NetworkFilterMask::BAD_FILTER;
     let mask_y = NetworkFilterMask::from_bits_retain(my) & !bad;
     let mask_z = mask_y | bad;
@@ -383,7 +388,14 @@ fn id_kernel<const N: usize>(with_mask_check: bool) {
     if has_dz {
         z.opt_domains = Some(vec![dz]);
     }
-    let same = bytes_eq(fy, fz) && has_hy == has_hz && (!has_hy || bytes_eq(hy, hz)) && has_dy == has_dz && (!has_dy || dy == dz);
+    if has_ny {
+        y.opt_not_domains = Some(vec![ny]);
+    }
+    if has_nz {
+        z.opt_not_domains = Some(vec![nz]);
+    }
+    let same = bytes_eq(fy, fz) && has_hy == has_hz && (!has_hy || bytes_eq(hy, hz)) && has_dy == has_dz && (!has_dy || dy == dz)
+        && has_ny == has_nz && (!has_ny || ny == nz);
     let ids_eq = z.get_id_without_badfilter() == y.get_id();
     if same {
         assert!(ids_eq, "P:id.same_rule_is_cancelled");
@@ -398,7 +410,7 @@ fn id_kernel<const N: usize>(with_mask_check: bool) {
         if has_hy {
             y2.hostname = Some(String::from(hy));
         }
-        if y2.mask != y.mask && !has_dy {
+        if y2.mask != y.mask && !has_dy && !has_ny {
             assert!(y2.get_id() != y.get_id(), "P:id.mask_is_part_of_id");
         }
         core::mem::forget(y2);
